@@ -68,6 +68,7 @@ func runC03(c *Ctx, r *Report) {
 	// (e) what the aggregators fold is what was extracted: the redundant-state rules of C07
 	borrow(c, r, c07PairedUpdates, "C07-a", "C03-e", nil, true)
 	borrow(c, r, c07ParseErrors, "C07-c", "C03-e", nil, true)
+	c07IncrementField(c, r, "C03-e/increment-field")
 	borrow(c, r, c07Numerical, "C07-d", "C03-e", nil, true)
 	c07DerivedState(c, r, "C03-e")
 }
